@@ -552,6 +552,7 @@ class CrashMachine(Machine):
     properties = ("C19",)
     level = "fault_enumeration"
     runs = {"quick": 80, "thorough": 6000}
+    budget = {"quick": 300.0}  # wall-clock cap of the exploration (default 150 s): 80 workloads take ~130-170 s
     run_timeout = 300.0
     rule = (
         "one run = one seeded workload (parallelise with a logging function, or scan.time_course / scan.steady_state / scan.protocol / mc.time_course; "
